@@ -193,6 +193,7 @@ def add_trial_refusal(ctx, recs, stats):
     except Exception:  # pylint: disable=broad-except
       continue
     stats['add_trial_cases'] += 1
+    before = len(list(studies[key].trials().get()))
     try:
       studies[key].add_trial(t)
       got = 'T'
@@ -200,6 +201,11 @@ def add_trial_refusal(ctx, recs, stats):
       got = 'F'
     except Exception as e:  # pylint: disable=broad-except
       got = 'RAISED:' + type(e).__name__
+    after = len(list(studies[key].trials().get()))
+    if after != before + (1 if got == 'T' else 0):
+      # a refused trial must leave nothing behind
+      ctx.violation({'via': 'add_trial', 'what': 'refused-trial-was-stored' if got != 'T' else 'accepted-trial-not-stored'},
+                    {'kind': 'membership', 'space': r['sp'], 'assignment': repr(raw), 'trials_before': before, 'trials_after': after})
     if got != r['contains']:
       ctx.violation({'via': 'add_trial', 'got': got, 'exp': r['contains']},
                     {'kind': 'membership', 'space': r['sp'], 'assignment': repr(raw), 'expected': r['contains'], 'observed': got})
